@@ -54,7 +54,7 @@ LEVEL_TEXT = (
 )
 LEVEL_NOTE = "Trusted: the snapshot normaliser and the conformance oracle (hv/gen/annotations.py), Python's == on stored attribute values."
 
-CLASSES = {"quick": 2800, "thorough": 60000}
+CLASSES = {"quick": 3200, "thorough": 60000}
 
 FIXED = '''
 class Node(State):
@@ -255,6 +255,19 @@ class Attack:
             else:
                 lines.append(f"    {an}: {A.render(term)}")
             attrs.append((an, term, has_default))
+        if rng.random() < 0.2:
+            # one subterm of one annotation becomes the bound of a type variable and the class is used unspecialised: the variable
+            # stands for its bound wherever it occurs (directly, or inside an alias / generic State argument): same meaning
+            ai = rng.randrange(nattr)
+            cands = [(p, t) for p, t in A.positions(attrs[ai][1]) if t != ("none",) and not A.mentions(t, "self")]
+            if cands and not A.mentions(attrs[ai][1], "self"):
+                pos, bound = rng.choice(cands)
+                an, term, has_default = attrs[ai]
+                old = f"    {an}: {A.render(term)}"
+                new = f"    {an}: {A.render(A.abstract_at(term, pos, ('var', 'T')))}"
+                lines[1 + ai] = new + lines[1 + ai][len(old):]
+                lines[0] = f"class {name}[T: {A.render(bound)}](State):"
+                self.R.count("classes_with_unspecialised_bounded_type_variable")
         # a derived value computed on first use and kept by the instance (functools.cached_property): reading it is no modification
         lines += ["    @functools.cached_property", "    def hv_derived(self):", "        return ('derived', len(type(self).__ATTRIBUTES__), object())"]
         src = "import functools\n" + "\n".join(lines) + "\n"
